@@ -1,0 +1,38 @@
+//go:build verif
+
+package peering
+
+import (
+	"net"
+
+	"github.com/mycoria/mycoria/state"
+)
+
+// Verification hooks (build tag "verif").
+
+// VerifConsts returns unexported constants of this package.
+func VerifConsts() map[string]uint64 {
+	return map[string]uint64{
+		"challengeSize":    challengeSize,
+		"minChallengeSize": minChallengeSize,
+	}
+}
+
+// VerifSetupLink runs the real link setup (handshake, finalize, switch label, AddLink,
+// workers) on the given connection and returns the link.
+func (p *Peering) VerifSetupLink(conn net.Conn, outgoing bool) (Link, error) {
+	link := newLinkBase(conn, nil, outgoing, p)
+	l, err := link.handleSetup(p.mgr)
+	if err != nil {
+		return nil, err
+	}
+	return l, nil
+}
+
+// VerifLinkSession returns the link layer encryption session of a link created by this package.
+func VerifLinkSession(l Link) *state.EncryptionSession {
+	if lb, ok := l.(*LinkBase); ok {
+		return lb.encSession
+	}
+	return nil
+}
